@@ -19,11 +19,21 @@ class LoggingEVSE(sut.EVSE):
         super().set_pilot(pilot, voltage, period)
 
 
+def _kw(**pairs):
+    """Keyword arguments for the SUT constructors with every value that equals the documented default left out: callers that
+    rely on a default are part of the population (a changed default must show)."""
+    out = {}
+    for k, (v, default) in pairs.items():
+        if not (type(v) is type(default) and v == default):
+            out[k] = v
+    return out
+
+
 def build_evse(sid, e):
     if e["type"] == "EVSE":
         mx = float("inf") if e["max"] is None else e["max"]
         cls = LoggingEVSE if e.get("sub") else sut.EVSE
-        return cls(sid, max_rate=mx, min_rate=e.get("min", 0))
+        return cls(sid, **_kw(max_rate=(mx, float("inf")), min_rate=(e.get("min", 0), 0)))
     if e["type"] == "Deadband":
         mx = float("inf") if e["max"] is None else e["max"]
         return sut.DeadbandEVSE(sid, deadband_end=e["deadband_end"], max_rate=mx)
@@ -59,20 +69,24 @@ class LoggingLinear2StageBattery(sut.Linear2StageBattery):
 def build_battery(b):
     if b["type"] == "Battery":
         return (LoggingBattery if b.get("sub") else sut.Battery)(b["capacity"], b["init"], b["max_power"])
-    return (LoggingLinear2StageBattery if b.get("sub") else sut.Linear2StageBattery)(b["capacity"], b["init"], b["max_power"], noise_level=b.get("noise", 0),
-                                   transition_soc=b.get("transition_soc", 0.8),
-                                   charge_calculation=b.get("calc", "continuous"))
+    return (LoggingLinear2StageBattery if b.get("sub") else sut.Linear2StageBattery)(
+        b["capacity"], b["init"], b["max_power"],
+        **_kw(noise_level=(b.get("noise", 0), 0), transition_soc=(b.get("transition_soc", 0.8), 0.8),
+              charge_calculation=(b.get("calc", "continuous"), "continuous")))
 
 
 def build_network(net):
     if net["kind"] == "stochastic":
         from acnportal.contrib.acnsim.network.stochastic_network import StochasticNetwork
-        nw = StochasticNetwork(violation_tolerance=net["violation_tolerance"],
-                               relative_tolerance=net["relative_tolerance"],
-                               early_departure=net.get("early_departure", False))
+        kw_ = _kw(violation_tolerance=(net["violation_tolerance"], 1e-5), relative_tolerance=(net["relative_tolerance"], 1e-7),
+                  early_departure=(net.get("early_departure", False), False))
+        if net.get("np_scalars"):
+            # parameters that come out of a numpy / pandas parameter sweep: numpy scalars, numpy booleans
+            kw_ = {k_: (sut.np.bool_(v_) if isinstance(v_, bool) else sut.np.float64(v_)) for k_, v_ in kw_.items()}
+        nw = StochasticNetwork(**kw_)
     elif net["kind"] == "custom":
-        nw = sut.ChargingNetwork(violation_tolerance=net["violation_tolerance"],
-                                 relative_tolerance=net["relative_tolerance"])
+        nw = sut.ChargingNetwork(**_kw(violation_tolerance=(net["violation_tolerance"], 1e-5),
+                                       relative_tolerance=(net["relative_tolerance"], 1e-7)))
     elif net["kind"] in ("caltech", "jpl", "office001"):
         from acnportal.acnsim.network import sites
         f = {"caltech": sites.caltech_acn, "jpl": sites.jpl_acn, "office001": sites.office001_acn}[net["kind"]]
@@ -95,9 +109,13 @@ def build_network(net):
     return nw
 
 
-def build_ev(s):
-    return sut.EV(s["arrival"], s["departure"], s["energy"], s["station"], s["session_id"],
-                  build_battery(s["battery"]), estimated_departure=s.get("est_departure"))
+def build_ev(s, np_scalars=False):
+    a, d, e = s["arrival"], s["departure"], s["energy"]
+    if np_scalars:
+        # values that come out of numpy / pandas pipelines (generate_events, DataFrames): numpy scalars instead of Python numbers
+        a, d, e = sut.np.int64(a), sut.np.int64(d), sut.np.float64(e)
+    return sut.EV(a, d, e, s["station"], s["session_id"], build_battery(s["battery"]),
+                  **_kw(estimated_departure=(s.get("est_departure"), None)))
 
 
 class TaggedPluginEvent(sut.PluginEvent):
@@ -114,7 +132,7 @@ def build_events(sc, reuse_evs=None, reuse_queue=None, later=None, cuts=()):
     (batch index, event): the operator adds batch b after run() has returned for the b-th time (driver.run_world)."""
     evs = []
     for s in sc["sessions"]:
-        ev = (reuse_evs or {}).get(s["session_id"]) or build_ev(s)
+        ev = (reuse_evs or {}).get(s["session_id"]) or build_ev(s, np_scalars=bool(sc["sim"].get("np_scalars")))
         cls = TaggedPluginEvent if s.get("ev_sub") else sut.PluginEvent
         evs.append(cls(s["arrival"], ev))
     for e in sc["extra_events"]:
@@ -181,10 +199,12 @@ def build_sim(sc, party, network=None, reuse_evs=None, reuse_queue=None, later=N
     kw = {}
     if sc["sim"].get("iface_sub"):
         kw["interface_type"] = LoggingInterface
-    sim = sut.Simulator(nw, first, q, build_start(sc["sim"]), period=sc["sim"]["period"],
-                        signals=build_signals(sc["sim"]),
-                        store_schedule_history=sc["sim"].get("store_schedule_history", False),
-                        verbose=bool(sc["sim"].get("verbose", False)), **kw)
+    per = sc["sim"]["period"]
+    if sc["sim"].get("np_scalars"):
+        per = sut.np.float64(per)
+    kw.update(_kw(period=(per, 1), signals=(build_signals(sc["sim"]), None),
+                  store_schedule_history=(bool(sc["sim"].get("store_schedule_history", False)), False)))
+    sim = sut.Simulator(nw, first, q, build_start(sc["sim"]), verbose=bool(sc["sim"].get("verbose", False)), **kw)
     if first is not party:
         sim.update_scheduler(party)
     return sim
